@@ -19,6 +19,77 @@ fn static_assertions() {
 
 type Ar = ZipArchive<Cursor<Vec<u8>>>;
 
+// ---- clonegate: interleaving at I/O-call granularity.  Handle A is stopped in front of its k-th read/seek call, a
+// second clone B opens and reads the same entry completely, then A continues.  Every clone has its own cursor; what
+// they share is the archive's metadata (incl. the per-entry data_start cell).
+struct Ctl {
+    st: std::sync::Mutex<CtlState>,
+    cv: std::sync::Condvar,
+    next_id: std::sync::atomic::AtomicU64,
+}
+#[derive(Default)]
+struct CtlState {
+    armed: Option<(u64, usize)>,
+    reached: bool,
+    go: bool,
+    a_done: bool,
+}
+struct GateReader {
+    inner: Cursor<std::sync::Arc<[u8]>>,
+    id: u64,
+    calls: usize,
+    ctl: std::sync::Arc<Ctl>,
+}
+impl Clone for GateReader {
+    fn clone(&self) -> Self {
+        GateReader {
+            inner: self.inner.clone(),
+            id: self.ctl.next_id.fetch_add(1, std::sync::atomic::Ordering::SeqCst),
+            calls: 0,
+            ctl: self.ctl.clone(),
+        }
+    }
+}
+impl GateReader {
+    fn gate(&mut self) {
+        self.calls += 1;
+        let mut st = self.ctl.st.lock().unwrap();
+        if st.armed == Some((self.id, self.calls)) {
+            st.reached = true;
+            self.ctl.cv.notify_all();
+            while !st.go {
+                st = self.ctl.cv.wait(st).unwrap();
+            }
+        }
+    }
+}
+impl Read for GateReader {
+    fn read(&mut self, buf: &mut [u8]) -> std::io::Result<usize> {
+        self.gate();
+        self.inner.read(buf)
+    }
+}
+impl std::io::Seek for GateReader {
+    fn seek(&mut self, pos: std::io::SeekFrom) -> std::io::Result<u64> {
+        self.gate();
+        self.inner.seek(pos)
+    }
+}
+fn read_one<R: Read + std::io::Seek>(ar: &mut ZipArchive<R>, i: usize, haspw: bool, pw: &[u8]) -> String {
+    let r = if haspw { ar.by_index_decrypt(i, pw) } else { ar.by_index(i).map(Ok) };
+    match r {
+        Err(e) => format!("[Err {}]", err_obs(&e)),
+        Ok(Err(_)) => "InvalidPassword".to_string(),
+        Ok(Ok(mut f)) => {
+            let mut v = vec![];
+            match f.read_to_end(&mut v) {
+                Ok(_) => format!("[Ok {}]", ob(&v)),
+                Err(e) => format!("[ReadErr {}]", io_obs(&e)),
+            }
+        }
+    }
+}
+
 fn read_all(ar: &mut Ar, order: &[usize], chunk: usize, yld: bool, haspw: bool, pw: &[u8]) -> Vec<(usize, String)> {
     let mut res = vec![];
     for &i in order {
@@ -55,6 +126,80 @@ fn read_all(ar: &mut Ar, order: &[usize], chunk: usize, yld: bool, haspw: bool, 
 
 pub fn dispatch(op: &str, a: &[Arg]) -> Option<String> {
     Some(match op {
+        // clonegate x<data> haspw x<pw>: for every entry and every gate position k: A stopped before its k-th I/O call
+        // while B reads the same entry; both must return what a handle used alone returns
+        "clonegate" => {
+            let data: std::sync::Arc<[u8]> = std::sync::Arc::from(a[0].b().to_vec());
+            let haspw = a[1].n() != 0;
+            let pw = a[2].b().to_vec();
+            let ctl = std::sync::Arc::new(Ctl {
+                st: std::sync::Mutex::new(CtlState::default()),
+                cv: std::sync::Condvar::new(),
+                next_id: std::sync::atomic::AtomicU64::new(1),
+            });
+            let base = match ZipArchive::new(GateReader { inner: Cursor::new(data.clone()), id: 0, calls: 0, ctl: ctl.clone() }) {
+                Ok(x) => x,
+                Err(e) => return Some(format!("[OpenErr {}]", err_obs(&e))),
+            };
+            let n = base.len();
+            let mut scenarios = 0usize;
+            let mut mismatches = 0usize;
+            let mut detail = String::new();
+            for idx in 0..n {
+                let mut alone = base.clone();
+                let want = read_one(&mut alone, idx, haspw, &pw);
+                let mut k = 1usize;
+                loop {
+                    let mut ha = base.clone();
+                    let mut hb = base.clone();
+                    // ha's reader is the clone made first: ids are handed out in clone order (alone, ha, hb, ...)
+                    let id_a = ctl.next_id.load(std::sync::atomic::Ordering::SeqCst) - 2;
+                    {
+                        let mut st = ctl.st.lock().unwrap();
+                        *st = CtlState { armed: Some((id_a, k)), reached: false, go: false, a_done: false };
+                    }
+                    let ctl2 = ctl.clone();
+                    let pw2 = pw.clone();
+                    let ta = std::thread::spawn(move || {
+                        let r = std::panic::catch_unwind(std::panic::AssertUnwindSafe(|| read_one(&mut ha, idx, haspw, &pw2)))
+                            .unwrap_or_else(|e| format!("[PANIC {}]", panic_class(&e)));
+                        let mut st = ctl2.st.lock().unwrap();
+                        st.a_done = true;
+                        ctl2.cv.notify_all();
+                        r
+                    });
+                    let reached;
+                    {
+                        let mut st = ctl.st.lock().unwrap();
+                        while !(st.reached || st.a_done) {
+                            st = ctl.cv.wait(st).unwrap();
+                        }
+                        reached = st.reached;
+                    }
+                    let rb = read_one(&mut hb, idx, haspw, &pw);
+                    {
+                        let mut st = ctl.st.lock().unwrap();
+                        st.go = true;
+                        ctl.cv.notify_all();
+                    }
+                    let ra = ta.join().unwrap_or_else(|_| "[PANIC thread]".to_string());
+                    scenarios += 1;
+                    if ra != want || rb != want {
+                        mismatches += 1;
+                        if detail.is_empty() {
+                            detail = format!("[entry {} gate {} A {} B {} want {}]", idx, k,
+                                ra.chars().take(60).collect::<String>(), rb.chars().take(60).collect::<String>(),
+                                want.chars().take(60).collect::<String>()).replace(' ', "_");
+                        }
+                    }
+                    if !reached || k > 200 {
+                        break;
+                    }
+                    k += 1;
+                }
+            }
+            format!("[{} {} {}]", scenarios, mismatches, if detail.is_empty() { "NONE".to_string() } else { detail })
+        }
         "clones" => {
             let first = match ZipArchive::new(Cursor::new(a[0].b().to_vec())) {
                 Ok(x) => x,
